@@ -291,7 +291,17 @@ fn plan10(seed: u64, run: u64, tier: Tier) -> Plan10 {
         }
     }
     // what the file system / the data URL serves; `ojson` stays what the oracle composes with
-    let served = if xssi_guard { format!(")]}}'\n{}", ojson) } else { ojson.clone() };
+    // round s: a map file past the sizes a reader might cap (9 MiB of insignificant white space right after the
+    // opening brace: cutting the file anywhere leaves no JSON); one case in fifty
+    let big_body = side.chance(1, 50);
+    let served = if xssi_guard {
+        format!(")]}}'\n{}", ojson)
+    } else if big_body && ojson.starts_with('{') {
+        tags.push("O:big-body-9MiB".into());
+        format!("{{{}{}", " ".repeat(9 << 20), &ojson[1..])
+    } else {
+        ojson.clone()
+    };
     if xssi_guard {
         tags.push("O:xssi-guard-line".into());
     }
@@ -855,6 +865,12 @@ impl Engine for C10 {
                                     if om.source_root.as_deref().map(|s| !s.is_empty()).unwrap_or(false) {
                                         st(&mut rep, "probe:composition-with-sourceRoot", 1);
                                     }
+                                    if om.sources.iter().any(|s| s.is_empty()) {
+                                        st(&mut rep, "probe:composition-through-empty-or-null-source-entry", 1);
+                                    }
+                                    if p.tags.iter().any(|t| t == "O:xssi-guard-line") {
+                                        st(&mut rep, "probe:composition-behind-xssi-guard-line", 1);
+                                    }
                                 }
                                 Err(e) => viol.push(Violation::new("K2", "K2:composition", format!("[{tag}] {e}"))),
                             },
@@ -1180,6 +1196,8 @@ impl Engine for C10 {
             "probe:split-configuration-call",
             "probe:usable-map-without-parent-folder",
             "probe:logger-switched-on",
+            "probe:composition-through-empty-or-null-source-entry",
+            "probe:composition-behind-xssi-guard-line",
         ]
     }
 }
